@@ -201,7 +201,12 @@ def objective(pd, salt, params, k):
     c = _h(salt, 'c', j, k)
     s -= (u - c) ** 2
   # keep 6 significant decimals: values survive every float32/float64 hop
-  return round(s + 0.25 * k, 6)
+  v = round(s + 0.25 * k, 6)
+  if _h(salt, 'plateau') < 0.3:
+    # a third of the scripts clip the objective: a plateau of *exact* zeros (a falsy
+    # metric value that has to survive dump / load like any other number)
+    return 0.0 if v < -0.1 else round(v + 0.1, 6)
+  return v
 
 
 def decide(script, trial_id, step):
